@@ -88,6 +88,7 @@ def run(prog, chk):
     chk.decided += [
         "script-registration mode (explicit script/language statements vs. bare lookups that rely on languagesystem) agrees across the GPOS writers of the default writer list, or something adds languagesystem statements (R20.1)",
         "where scripts are registered explicitly, the languages registered under a tag are exactly those the feature file declares for that tag, default ['dflt'] (R20.2)",
+        "the scripts / glyph classifications a writer registers are computed for the font of the current call: no per-font state or memoised result on the writer object (R20.3, shared with C08)",
     ]
     chk.not_decided += ["which scripts a given font ends up with in the compiled ScriptList"]
     writers = default_writers(prog)
@@ -124,6 +125,9 @@ def run(prog, chk):
             raise AnalysisError(f"cannot determine how {w.name} registers its lookups")
     chk.minimum("R20.1", 6)
     r202(prog, chk)
+    # the scripts a writer registers are derived from the font of the current call only
+    from . import c08
+    c08.r087(prog, chk, "R20.3")
 
 
 def feature_tags(prog, w: ClassInfo) -> Set[str]:
@@ -176,6 +180,8 @@ def r202(prog, chk):
 
 
 MUTANTS = [
+    M("script classification memoised on the writer (seeded C20c)", "ufo2ft/featureWriters/kernFeatureWriter.py", "KernFeatureWriter.knownScriptsPerCodepoint",
+      "<decorate>", "functools.lru_cache(maxsize=None)", rule="R20.3"),
     M("languages gathered per Unicode script instead of per tag (seeded C20b)", "ufo2ft/featureWriters/kernFeatureWriter.py", "KernFeatureWriter._registerLookups",
       "languages = feaLanguagesByScript.get(tag, ['dflt'])", "languages = [l for t in unicodedata.ot_tags_from_script(script) for l in feaLanguagesByScript.get(t, ())] or ['dflt']", rule="R20.2"),
     M("v2 registers DFLT's languages under every tag", "ufo2ft/featureWriters/kernFeatureWriter2.py", "register_lookups",
